@@ -49,11 +49,8 @@ func schemaStream() ([]Tok, *ast.Source) {
 	verifrt.SetOpt("unwind", total+3)
 	verifrt.SetOpt("depth", 8*total+40)
 	verifrt.SetOpt("merge", verifrt.Param("merge", 0))
-	toks := append(append([]Tok(nil), pre...), SymbolicStream(k, Alphabet(SchemaNames, verifrt.Param("invalid", 0) != 0))...)
+	toks := append(append([]Tok(nil), pre...), SymbolicStream(k, Alphabet(SchemaNames, verifrt.Param("invalid", 0) != 0), verifrt.Param("first", -1))...)
 	toks = append(toks, suf...)
-	if f := verifrt.Param("first", -1); f >= 0 && k > 0 {
-		verifrt.Assume(verifrt.Int("t0", 0, 1000) == f)
-	}
 	return toks, Install(toks)
 }
 
